@@ -61,12 +61,17 @@ SEED_PROGRAMS = [
     "x = 1 < 2 < 3 < 4\nx += 1\nx = +x - -x\nprint(print(x).print(), x.print)\n",
     "",
     "1\n",
+    "x = 0\r\ny = 0.0 == False\r\nz = '' or 0j\r\nprint(x <= y <= z, 1, 1.0, True)\r\n",
+    "a = 1\rb = a < 2 <= 3\rprint(b)\r",
+    "\x0cx = 1\n\x0cif x >= 1 >= 0:\n    print(x >> 1 << 2)  # \x0b \x85 \u2028\n",
+    "\u00e9t\u00e9 = 1\n\u540d = \u00e9t\u00e9 + 1\nprint(\u540d, '\u540d')\n",
 ]
 
 
 def evaluate_real(src, queries, rng, full_rate):
-    """Run the real finders and ensure_/prevent_ checks for every query on `src`."""
-    sc.load(src)
+    """Run the real finders and ensure_/prevent_ checks for every query on `src` (main file under a default or a
+    non-default name; threshold passed by keyword, positionally, or through the alias / with an explicit root)."""
+    sc.load(src, rng.choice([None, None, "student_main.py", "hw/q1.py"]))
     res = []
     for q in queries:
         kind = q[0]
@@ -80,9 +85,10 @@ def evaluate_real(src, queries, rng, full_rate):
             count = first.get("count") if isinstance(first.get("count"), int) else 0
             full = rng.random() < full_rate
             for thr in sc.thresholds_for(count, rng, full):
+                sp = rng.choice([0, 0, 1, 2])
                 if thr != 0:
-                    rec["checks"][("ensure", thr)] = sc.real_check(q, "ensure", thr)
-                rec["checks"][("prevent", thr)] = sc.real_check(q, "prevent", thr)
+                    rec["checks"][("ensure", thr)] = sc.real_check(q, "ensure", thr, sp)
+                rec["checks"][("prevent", thr)] = sc.real_check(q, "prevent", thr, sp)
         res.append(rec)
     return res
 
@@ -295,7 +301,7 @@ def search(rng, tier, broken, corr):
                     "own parse of the symbol; literal = same value AND same type; Num/Str/Bool by the constant's type); the "
                     "correspondence programs, more generated programs and (thorough) every program of <= 2 statements "
                     "over a 24-statement alphabet; thresholds 0-4 and count-1..count+1",
-            "evaluations": 0, "distinct_nontrivial": 0, "samples": []}
+            "evaluations": 0, "distinct_nontrivial": 0, "samples": [], "skipped": {}}
     failures, seen_sigs, nt = [], set(), set()
 
     def consider(src, qs, real):
@@ -307,6 +313,9 @@ def search(rng, tier, broken, corr):
             info["evaluations"] += len(rec["checks"]) + (1 if rec["find"] is not None else 0)
             v = judge(src, q, rec, tree)
             occ = sc.oracle_nodes(tree, q)
+            if occ is None:
+                info["skipped"]["undocumented-symbol (outside the property)"] = \
+                    info["skipped"].get("undocumented-symbol (outside the property)", 0) + 1
             if occ:
                 nt.add((src, repr(q_json(q))))
             if v is None or len(failures) >= 8:
